@@ -190,7 +190,7 @@ def units():
             has_loop = "while (len > 0)" in body
             h = HEAD % dict(file=fname) + "\n/* kernel frame contracts (generated from the signatures in the source) */\n" + \
                 "\n".join(decls) + ((IMPL_READ if kind == "read" else IMPL_WRITE) % dict(fn=fn, T=T, SZ=SZ[T]))
-            u = {"name": "%s.%s" % (prefix, fn), "props": ["C05", "C15", "C19"] + (["C07"] if kind == "write" else ["C06"]),
+            u = {"name": "%s.%s" % (prefix, fn), "props": ["C05", "C15"] + (["C07"] if kind == "write" else ["C06"]),
                  "harness_text": h, "template": "units/gen_pcm_rw.py",
                  "entry": "h_unit", "enforce": fn, "function": "%s:%s" % (fname, fn), "replace": repl,
                  "timeout": 600, "tier": "quick",
